@@ -15,6 +15,7 @@ RULES = {
     'C10.R3': 'field -> attribute table per file kind (project line, lecturer line, 2-agent line) and the token slice that holds each preference list',
     'C10.R4': 'second-side tokens produce rank_lecturer only under -twopl, and then for every pair; every cost reader of rank_lecturer is guarded by its presence',
     'C10.R5': '2-agent embedding: hospital j = project j offered by lecturer j with the same lower/upper quota and target = upper quota',
+    'C10.R7': 'no rejection of grammar-conforming files: the reader never raises on an empty preference list (agents nobody ranks have empty second-side lists)',
     'C10.R6': 'derived data: lecturer of a pair = lecturer of its project; indices = ids - 1; project/lecturer/rank lists are scatters of all pairs (C01.R4, C03.R4)',
 }
 
@@ -238,7 +239,9 @@ def run(rep, repo, tier):
     for na in (2, 3):
         for twopl in (True, False):
             try:
-                check_reader(rep, Reader(repo, na, twopl))
+                R_ = Reader(repo, na, twopl)
+                check_reader(rep, R_)
+                check_no_rejection(rep, R_)
             except Unknown as u:
                 rep.inconclusive('C10.R2', repo.function('_import_from_file').where, 'file reader is inside the recognised fragment [-na %d%s]' % (na, ' -twopl' if twopl else ''), got=str(u))
             rep.count('specialisations')
@@ -437,6 +440,31 @@ def stab_gated_functions(repo):
                 gated.add(nm)
                 changed = True
     return gated
+
+
+def check_no_rejection(rep, R, rule='C10.R7'):
+    """A `raise` guarded by the emptiness of a preference-token list rejects files of the documented grammar."""
+    cfg = '[-na %d%s]' % (R.na, ' -twopl' if R.twopl else '')
+    n = 0
+    for e, ctx in iter_effects(R.effs):
+        if e.kind != 'raise':
+            continue
+        n += 1
+        guards = [(c.cond if br else NOT(c.cond)) for c, br in ctx if c.kind == 'if']
+        for g in guards:
+            for part in (g[2] if (g[0] == 'bool' and g[1] == 'and') else [g]):
+                empties = []
+                p = part
+                if p[0] == 'not':
+                    empties.append(p[1])
+                if p[0] == 'cmp' and p[1] in ('Eq', 'Lt', 'LtE') and p[2][0] == 'call' and p[2][1] == S('len') and p[3] in (C(0), C(1)):
+                    empties.append(p[2][2][0])
+                for x in empties:
+                    if R.slice_from(x) is not None or contains(x, lambda y: y[0] == 'slice' and R.is_fields(y[1])):
+                        rep.fail(rule, e.where, 'a line whose preference list is empty is accepted %s' % cfg, got='raises %s when %s' % (show(e.value)[:60], show(part).replace(show(R.line), 'line')[:80]),
+                                 want='empty lists are legal (nobody ranks that agent)', construct='reader raises on an empty preference list', loc=e.loc)
+                        return
+    rep.ok(rule, R.f.where, 'no raise guarded by an empty preference list %s' % cfg, got='%d raise statements in the reader slice' % n)
 
 
 def check_cost_readers(rep, repo):
